@@ -370,7 +370,11 @@ pub fn run(report: &mut Report, replay: Option<&Value>) {
     }
     super::replay_corpus(report, &|rep, v| {
         if let Some(r) = from_replay(v) {
-            let root = crate::work_dir().join("e3").join(format!("c19c-{}", std::process::id()));
+            // a directory of its own per corpus file: the library called in-process caches schema and
+            // query files by path for the life of this process
+            static N: std::sync::atomic::AtomicUsize = std::sync::atomic::AtomicUsize::new(0);
+            let k = N.fetch_add(1, std::sync::atomic::Ordering::SeqCst);
+            let root = crate::work_dir().join("e3").join(format!("c19c-{}-{}", std::process::id(), k));
             rep.evaluations += 1;
             if let Err((key, what)) = execute(&root.join("replay"), &r) {
                 let vv = v.clone();
